@@ -5,14 +5,14 @@ import PyElf.Proofs.SymParse
 namespace PyElf.Proofs
 open PyElf PyElf.Spec PyElf.Model
 
-theorem parseCStringFromStream_eq (data : Bytes) (pos : Nat) :
+theorem sym_parseCStringFromStream_eq (data : Bytes) (pos : Nat) :
     parseCStringFromStream data pos = .ok (firstNul (data.drop pos)) := by
   have := cstringChunkLoop_eq data 64 (by decide) (data.length - pos + 2) pos [] (by omega)
   simpa [parseCStringFromStream] using this
 
 theorem getString_eq (data : Bytes) (strOff off : Nat) (name : Bytes)
     (h : firstNul (data.drop (strOff + off)) = some name) : symGetString data strOff off = .ok name := by
-  simp [symGetString, parseCStringFromStream_eq, h, bind, Except.bind, pure, Except.pure]
+  simp [symGetString, sym_parseCStringFromStream_eq, h, bind, Except.bind, pure, Except.pure]
 
 theorem obsEntry_stName (dec : String → Int → Option String) (cls : Nat) (e : SymE) :
     (obsEntry dec cls e).getNat "st_name" = .ok e.stName := by
